@@ -124,7 +124,10 @@ def run(prog, tier):
     # c3d not copyable: base std::fstream has a deleted copy constructor; implicit copy of c3d is
     # therefore deleted unless someone declares one
     sp = c3d['special']
-    if sp['user_copy_ctor'] or sp['user_copy_assign']:
+    copy_ops = [m for m in c3d['methods'] if not m.get('implicit') and ((m.get('kind') == 'ctor' and m.get('copy')) or (m.get('name') == 'operator=' and m.get('copyassign', True)))]
+    if (sp['user_copy_ctor'] or sp['user_copy_assign']) and copy_ops and all(m.get('deleted') for m in copy_ops):
+        res.ok('per-object', 'c3d is not copyable (copy operations explicitly deleted)', 'include/ezc3d.h:%d' % c3d['line'], function='', expr='copy')
+    elif sp['user_copy_ctor'] or sp['user_copy_assign']:
         res.viol('per-object', 'c3d copy operations', 'include/ezc3d.h:%d' % c3d['line'],
                  'c3d declares copy operations: two objects could share section handles and the scratch buffer',
                  function='', expr='copy')
